@@ -176,10 +176,12 @@ Fixpoint prun (calc : Z -> Z -> Z -> Z -> outcome Z) (s : pstate) (ops : list po
 (* ---------------- the property ---------------- *)
 (* an accrual is legitimate in the state [s] before the step: it is made at the fee in force, over a
    period that starts no earlier than the vault was settled last and no earlier than that fee came into
-   force, on a principal within the vault's debt *)
+   force (at a zero fee the sweep of a zero -> zero update evaluates CalculationOfRewards at rate 0 over
+   whatever period the stamps give: such an entry is legitimate, its amount is the accrual at rate 0),
+   on a principal within the vault's debt *)
 Definition charge_legit (calc : Z -> Z -> Z -> Z -> outcome Z) (s : pstate) (c : charge) : Prop :=
   ch_rate c = ps_fee s /\
-  Z.max (pv_cov (ch_pre c)) (ps_tchg s) <= ch_from c /\ ch_from c <= ps_now s /\
+  (ps_fee s = 0 \/ (Z.max (pv_cov (ch_pre c)) (ps_tchg s) <= ch_from c /\ ch_from c <= ps_now s)) /\
   (ch_princ c = pv_debt (ch_pre c) \/ ch_princ c = pv_debt (ch_pre c) + pv_intacc (ch_pre c)) /\
   calc (ps_now s) (ch_from c) (ch_princ c) (ch_rate c) = Ok (ch_amt c).
 
